@@ -232,17 +232,18 @@ def strategies(op, nmax, tempdir):
 
 
 def run_variant(op, tables, kw, cfg, passes=2):
+    # the configured default stays in force while the view is built AND while it is iterated (a user sets it once)
     petl.config.sort_buffersize = cfg
     try:
         view = op.fn(tables, dict(kw))
+        res = []
+        for _ in range(passes):
+            try:
+                res.append([freeze(r) for r in view])
+            except Exception as e:
+                res.append(('exc', type(e).__name__, env.excmsg(e)))
     finally:
         petl.config.sort_buffersize = DEFAULT_BUFFERSIZE
-    res = []
-    for _ in range(passes):
-        try:
-            res.append([freeze(r) for r in view])
-        except Exception as e:
-            res.append(('exc', type(e).__name__, env.excmsg(e)))
     return res
 
 
